@@ -27,9 +27,9 @@ Definition Sim (w : PoolConc.cworld) (p : bool) (hd : Z) (bf bcnt nx nfi : Z -> 
   hd = adr (PoolConc.hd0 (PoolConc.lfree x)) /\ linkedA nx (PoolConc.lfree x) /\
   (forall a, In a (PoolConc.lfree x) -> 0 < a < fr) /\ 0 < fr /\
   (forall b, 0 < b < fr -> bf (adr b) = PoolConc.fb w b /\ bcnt (adr b) = PoolConc.fc w b) /\
-  (forall b j, 0 < b < fr -> nfi (Gen_MemPool.pvGetBlock B A (adr b) j) = PoolConc.nx w b j) /\
+  (forall b j, 0 < b < fr -> 0 <= j < C -> nfi (Gen_MemPool.pvGetBlock B A (adr b) j) = PoolConc.nx w b j) /\
   (forall k, fr <= k -> bf (adr k) = 0 /\ bcnt (adr k) = C /\ nx (adr k) = 0 /\
-                        forall j, nfi (Gen_MemPool.pvGetBlock B A (adr k) j) = chainv j).
+                        forall j, 0 <= j < C -> nfi (Gen_MemPool.pvGetBlock B A (adr k) j) = chainv j).
 
 Lemma adr_eqb a b : (adr a =? adr b) = (a =? b).
 Proof. destruct (Z.eqb_spec a b) as [->|N]; [apply Z.eqb_refl|]. destruct (Z.eqb_spec (adr a) (adr b)) as [E|_]; [apply adr_inj in E; contradiction|reflexivity]. Qed.
@@ -48,8 +48,13 @@ Proof. destruct p; reflexivity. Qed.
 (* the model step, in closed form for the three cases *)
 Definition attach (w : PoolConc.cworld) (p : bool) : PoolConc.cworld := PoolConc.attach_new C w p.
 
+(* side condition of a step, a fact about the MODEL world: the first-free index of the head (if there is one) is a valid block index
+   (a consequence of the whole-history invariant for reachable worlds; not derived here) *)
+Definition head_ok (w : PoolConc.cworld) (p : bool) : Prop :=
+  match PoolConc.lfree (PoolConc.getp w p) with [] => True | h :: _ => 0 <= PoolConc.fb w h < C end.
+
 Theorem sim_step w p hd bf bcnt nx pv nfi :
-  Sim w p hd bf bcnt nx nfi ->
+  Sim w p hd bf bcnt nx nfi -> head_ok w p ->
   let '(w', (b, i)) := PoolConc.pvNewBlock C w p in
   exists hd2 bf' bcnt' nx' pv',
     Gen_MemPoolBlk.pvNewBlock (adr (PoolConc.fresh w)) B A hd bf bcnt nx pv nfi false =
@@ -57,9 +62,10 @@ Theorem sim_step w p hd bf bcnt nx pv nfi :
     PoolConc.fresh w' = (if PoolBlk.requests hd bcnt nx then PoolConc.fresh w + 1 else PoolConc.fresh w) /\
     Sim w' p hd2 bf' bcnt' nx' nfi.
 Proof.
-  intros (Ehd & Lk & Ids & F0 & Maps & Nfi & Pre).
+  intros (Ehd & Lk & Ids & F0 & Maps & Nfi & Pre) Hok. unfold head_ok in Hok.
   pose proof (PoolBlk.newblock_spec (adr (PoolConc.fresh w)) B A hd bf bcnt nx pv nfi) as S. cbv zeta in S.
   destruct (Pre (PoolConc.fresh w) ltac:(lia)) as (P1 & P2 & P3 & P4).
+  assert (P40 := P4 0 ltac:(lia)).
   unfold PoolConc.pvNewBlock. destruct (PoolConc.lfree (PoolConc.getp w p)) as [|h rest] eqn:El.
   - (* empty pool *)
     cbn [PoolConc.hd0] in Ehd. rewrite adr0 in Ehd. subst hd. rewrite Z.eqb_refl in S.
@@ -84,11 +90,11 @@ Proof.
     split; [reflexivity|]. split; [rewrite adr0; auto|]. split; [intros a [<-|[]]; lia|]. split; [lia|]. split; [|split].
     + intros b Hb. unfold w2, PoolConc.set_bytes; cbn [PoolConc.fb PoolConc.fc]. rewrite Mb, Mc. unfold upd. rewrite !adr_eqb.
       destruct (Z.eqb_spec b (PoolConc.fresh w)) as [->|Nb].
-      * split; [|reflexivity]. rewrite P4. unfold wi; cbn [PoolConc.nx]. rewrite Z.eqb_refl. reflexivity.
+      * split; [|reflexivity]. rewrite P40. unfold wi; cbn [PoolConc.nx]. rewrite Z.eqb_refl. reflexivity.
       * destruct (Maps b ltac:(lia)) as (M1 & M2). unfold wi; cbn [PoolConc.fb PoolConc.fc]. unfold upd.
         destruct (Z.eqb_spec b (PoolConc.fresh w)); [contradiction|]. split; assumption.
-    + intros b j Hb. unfold w2, PoolConc.set_bytes; cbn [PoolConc.nx]. rewrite Mn. unfold wi; cbn [PoolConc.nx].
-      destruct (Z.eqb_spec b (PoolConc.fresh w)) as [->|Nb]; [rewrite P4; reflexivity|apply Nfi; lia].
+    + intros b j Hb Hj. unfold w2, PoolConc.set_bytes; cbn [PoolConc.nx]. rewrite Mn. unfold wi; cbn [PoolConc.nx].
+      destruct (Z.eqb_spec b (PoolConc.fresh w)) as [->|Nb]; [rewrite (P4 j Hj); reflexivity|apply Nfi; [lia|exact Hj]].
     + intros k Hk. destruct (Pre k ltac:(lia)) as (Q1 & Q2 & Q3 & Q4). unfold upd. rewrite !adr_eqb.
       destruct (Z.eqb_spec k (PoolConc.fresh w)); [lia|]. auto.
   - (* the pool has a head h *)
@@ -99,7 +105,7 @@ Proof.
     { destruct rest as [|c r]; [tauto|]. cbn [PoolConc.hd0]. split; [|discriminate]. intros E0.
       pose proof (Ids c (or_intror (or_introl eq_refl))). lia. }
     assert ((adr (PoolConc.hd0 rest) =? 0) = (PoolConc.hd0 rest =? 0)) as Enx by (rewrite <- adr0 at 1; apply adr_eqb).
-    rewrite Mh2, Lh, Enx, Mh1, (Nfi h _ ltac:(lia)) in S.
+    rewrite Mh2, Lh, Enx, Mh1, (Nfi h _ ltac:(lia) Hok) in S.
     destruct ((PoolConc.fc w h =? 1) && (PoolConc.hd0 rest =? 0)) eqn:Need.
     + apply andb_prop in Need. destruct Need as (N1 & N2). apply Z.eqb_eq in N1, N2. apply Hrest in N2. subst rest.
       unfold PoolConc.attach_new, PoolConc.new_buffer. set (wi := PoolConc.mkCW _ _ _ _ _ _ _).
@@ -129,8 +135,8 @@ Proof.
         destruct (Z.eqb_spec b h) as [->|Nb]; [split; reflexivity|].
         unfold wi; cbn [PoolConc.fb PoolConc.fc]. unfold upd. destruct (Z.eqb_spec b (PoolConc.fresh w)) as [->|Nbf]; [split; assumption|].
         destruct (Maps b ltac:(lia)) as (M1 & M2). split; assumption.
-      * intros b j Hb. rewrite Mn3. unfold w2, PoolConc.set_bytes; cbn [PoolConc.nx]. rewrite Mn. unfold wi; cbn [PoolConc.nx].
-        destruct (Z.eqb_spec b (PoolConc.fresh w)) as [->|Nb]; [rewrite P4; reflexivity|apply Nfi; lia].
+      * intros b j Hb Hj. rewrite Mn3. unfold w2, PoolConc.set_bytes; cbn [PoolConc.nx]. rewrite Mn. unfold wi; cbn [PoolConc.nx].
+        destruct (Z.eqb_spec b (PoolConc.fresh w)) as [->|Nb]; [rewrite (P4 j Hj); reflexivity|apply Nfi; [lia|exact Hj]].
       * intros k Hk. destruct (Pre k ltac:(lia)) as (Q1 & Q2 & Q3 & Q4). unfold upd. rewrite !adr_eqb.
         destruct (Z.eqb_spec k h); [lia|]. auto.
     + unfold PoolConc.take. rewrite El. cbn [PoolConc.hd0 PoolConc.tl0].
@@ -146,14 +152,14 @@ Proof.
         split; [reflexivity|]. split; [exact Lrest|]. split; [intros a Ha; apply Ids; right; exact Ha|]. split; [exact F0|]. split; [|split].
         -- intros b Hb. rewrite Mb3, Mc3. unfold w2, PoolConc.set_bytes; cbn [PoolConc.fb PoolConc.fc]. unfold upd. rewrite !adr_eqb.
            destruct (Z.eqb_spec b h) as [->|Nb]; [split; reflexivity|]. apply Maps; exact Hb.
-        -- intros b j Hb. rewrite Mn3. apply Nfi; exact Hb.
+        -- intros b j Hb Hj. rewrite Mn3. apply Nfi; assumption.
         -- intros k Hk. destruct (Pre k Hk) as (Q1 & Q2 & Q3 & Q4). unfold upd. rewrite !adr_eqb. destruct (Z.eqb_spec k h); [lia|]. auto.
       * split; [rewrite Rq; reflexivity|].
         unfold Sim. replace (PoolConc.getp w2 p) with (PoolConc.getp w p) by (unfold w2; symmetry; apply getp_set_bytes). rewrite El. change (PoolConc.fresh w2) with (PoolConc.fresh w). cbn [PoolConc.hd0 linkedA].
         split; [reflexivity|]. split; [split; assumption|]. split; [exact Ids|]. split; [exact F0|]. split; [|split].
         -- intros b Hb. unfold w2, PoolConc.set_bytes; cbn [PoolConc.fb PoolConc.fc]. unfold upd. rewrite !adr_eqb.
            destruct (Z.eqb_spec b h) as [->|Nb]; [split; reflexivity|]. apply Maps; exact Hb.
-        -- intros b j Hb. apply Nfi; exact Hb.
+        -- intros b j Hb Hj. apply Nfi; assumption.
         -- intros k Hk. destruct (Pre k Hk) as (Q1 & Q2 & Q3 & Q4). unfold upd. rewrite !adr_eqb. destruct (Z.eqb_spec k h); [lia|]. auto.
 Qed.
 
@@ -181,26 +187,29 @@ Fixpoint grun (n : nat) (fr hd : Z) (bf bcnt nx pv nfi : Z -> Z)
     end
   end.
 
+Fixpoint okalloc (n : nat) (w : PoolConc.cworld) (p : bool) : Prop :=
+  match n with O => True | S n => head_ok w p /\ okalloc n (fst (PoolConc.pvNewBlock C w p)) p end.
+
 Theorem sim_run : forall n w p hd bf bcnt nx pv nfi,
-  Sim w p hd bf bcnt nx nfi ->
+  Sim w p hd bf bcnt nx nfi -> okalloc n w p ->
   exists hd' bf' bcnt' nx' pv',
     grun n (PoolConc.fresh w) hd bf bcnt nx pv nfi =
       Some (map (fun bk => Gen_MemPool.pvGetBlock B A (adr (fst bk)) (snd bk)) (fst (mrun n w p)), (hd', bf', bcnt', nx', pv')) /\
     Sim (snd (mrun n w p)) p hd' bf' bcnt' nx' nfi.
 Proof.
-  induction n as [|n IH]; intros w p hd bf bcnt nx pv nfi H.
+  induction n as [|n IH]; intros w p hd bf bcnt nx pv nfi H Hok.
   - exists hd, bf, bcnt, nx, pv. split; [reflexivity|exact H].
-  - pose proof (sim_step w p hd bf bcnt nx pv nfi H) as St. cbn [mrun grun].
-    destruct (PoolConc.pvNewBlock C w p) as (w' & (b & i)).
+  - destruct Hok as (Hh & Hok). pose proof (sim_step w p hd bf bcnt nx pv nfi H Hh) as St. cbn [mrun grun].
+    destruct (PoolConc.pvNewBlock C w p) as (w' & (b & i)). cbn [fst] in Hok.
     destruct St as (hd2 & bf2 & bc2 & nx2 & pv2 & E & Ef & H2). rewrite E, <- Ef.
-    destruct (IH w' p hd2 bf2 bc2 nx2 pv2 nfi H2) as (hd' & bf' & bc' & nx' & pv' & Er & Hf).
+    destruct (IH w' p hd2 bf2 bc2 nx2 pv2 nfi H2 Hok) as (hd' & bf' & bc' & nx' & pv' & Er & Hf).
     rewrite Er. destruct (mrun n w' p) as (l & wf). exists hd', bf', bc', nx', pv'. split; [reflexivity|exact Hf].
 Qed.
 
 (* the invariant holds initially: an empty pool in a world whose future buffers (ids >= 1) are pre-initialised *)
 Lemma sim_init p bf bcnt nx nfi :
   (forall k, 1 <= k -> bf (adr k) = 0 /\ bcnt (adr k) = C /\ nx (adr k) = 0 /\
-                       forall j, nfi (Gen_MemPool.pvGetBlock B A (adr k) j) = chainv j) ->
+                       forall j, 0 <= j < C -> nfi (Gen_MemPool.pvGetBlock B A (adr k) j) = chainv j) ->
   Sim PoolConc.empty_world p 0 bf bcnt nx nfi.
 Proof.
   intros Pre. unfold Sim. assert (PoolConc.lfree (PoolConc.getp PoolConc.empty_world p) = []) as -> by (destruct p; reflexivity).
